@@ -143,10 +143,8 @@ class Index:
                     prev()
                 return match, skipped
 
-            if len(compiled_matches) > 1:
-                stop = compiled_matches[-1]
-            else:
-                stop = self.prefix
+            # matches are sorted descending: the scan ends below the smallest one
+            stop = compiled_matches[-1]
             if since:
                 stop += b"\x00" + since
             match, skipped = next_match()
